@@ -926,6 +926,14 @@ class Engine:
         for k in self.yield_sites(self.frames[0]).values():
             env['_y{}'.format(k)] = z3.IntVal(0)
             env['_ytotal'] = z3.IntVal(0)           # ghost: how many values the generator has yielded so far
+        if c.get('ghost_code'):
+            # ghost code is anchored at statements by their source text: an anchor that matches no statement of the function (the
+            # statement was edited, a local renamed) means the ghost state will not be maintained - stale scaffolding, an auxiliary
+            # failure (the function degrades), never a reason to report the decisive clauses that depend on the ghost state
+            srcs = {ast.unparse(n) for n in ast.walk(node) if isinstance(n, ast.stmt)}
+            for anchor, _code in c['ghost_code']:
+                if anchor not in srcs:
+                    self.oblige('hint', 'ghost code anchor `{}` matches no statement of the function'.format(anchor[:60]), False, node.lineno, decisive=False)
         if c.get('yield_acc'):
             env['_ys'] = VSeq(specs.cnil)            # ghost: the sequence of clauses yielded so far
         outcome = ('normal', None)
